@@ -586,3 +586,21 @@ def run(repo: Repo, rep: Report, tier: str) -> None:
               f"{row_stores[0][0].short}: {norm(row_stores[0][1])[:80]}" if row_stores else
               "no injection writes `*_signal_wires` into `conditions`: `Signal a = (\"signal-A\", 5); Signal b = (\"signal-A\", -3); Signal r = (a > 0) && (b > 0);` — a arrives on red, b on green, "
               "both rows read red + green = 2 and r is 1", iw.loc())
+
+    # ---------------- R15 --------------------------------------------------------------
+    rep.rule("C01-R15", "every decider gets all the wire selections it needs: in the planner's injection loop the three injections (left/right operand, output value, condition rows) are "
+             "reached for every combinator of the right kind — none of them is skipped because another one applies (a folded `(a > 0 && b > 0) : v` needs rows *and* output value)")
+    from .util import cguards as _cg15r, stmt_of as _so15r
+    cinj15 = _c10r(iw)
+    for meth, needs in (("_inject_operand_wire_color", None), ("_inject_output_value_wire_color", "decider-combinator"), ("_inject_condition_wire_colors", "decider-combinator")):
+        calls15 = [c for c in calls_in(iw.node, meth)]
+        if not calls15:
+            rep.bad("C01-R15", f"injection loop calls {meth}", "never called from _inject_wire_colors_into_placements", iw.loc())
+            continue
+        for c15 in calls15[:1]:
+            gs15 = _cg15r(iw, _so15r(iw, c15))
+            foreign = [("" if pol else "not ") + g for g, pol in gs15 if "entity_type" not in g
+                       and not (meth == "_inject_condition_wire_colors" and pol and "'conditions'" in g)]  # "has rows" is that injection's own precondition
+            rep.check(not foreign, "C01-R15", f"injection loop reaches {meth} for every {'decider' if needs else 'combinator'}",
+                      "guarded by the entity type only" if not foreign else
+                      f"reached only under `{foreign[0][:80]}`: a decider to which that does not apply misses this selection and reads red + green", iw.loc(c15))
